@@ -41,7 +41,8 @@ def client_api():
     fb.message("Book", [("name", "string"), ("author", "string"), ("rating", "int32"),
                         ("shelf", "msg:Shelf"), ("class", "string")])
     fb.message("GetBookRequest", [("name", "string"), ("view", "enum:View")])
-    fb.message("CreateBookRequest", [("parent", "string"), ("book", "msg:Book"), ("book_id", "string"),
+    # book_id is REQUIRED and comes last in the signature: flattened parameters keep the DECLARED order
+    fb.message("CreateBookRequest", [("parent", "string"), ("book", "msg:Book"), ("book_id", "string", {"required": True}),
                                      ("request_id", "string", {"optional": True, "uuid4": True}),
                                      ("trace_id", "string", {"uuid4": True})])
     fb.message("UpdateBookRequest", [("book", "msg:Book"), ("update_mask", "msg:google.protobuf.FieldMask")])
